@@ -194,11 +194,19 @@ func init() {
 				return fmt.Sprintf("%d %s", math.Float64bits(w), relT(ne))
 			case "sched":
 				picker = wrr.VerifNewPicker(cfg, endpoints, uint32(atou64(f[1])))
+				picker.Guard = func() {
+					budget--
+					if budget < 0 {
+						panic("hang: nextIndex consumed its whole sequence-number budget")
+					}
+				}
 				out := showSched(picker.NewScheduler(false))
 				if out == "nil" {
 					next = nil
 				} else {
-					next = picker.Next
+					n := len(endpoints)
+					p := picker
+					next = func() int { budget = 70000 * n; return p.Next() }
 				}
 				return out
 			}
